@@ -76,6 +76,59 @@ impl CharacterData {
     pub fn clone(&self) -> (r: Self) ensures r == *self { *self }
 }
 impl Attribute { pub fn clone(&self) -> (r: Self) ensures r == *self { *self } }
+pub struct WeakElement { pub opaque: u64 }
+pub struct AutosarModel { pub opaque: u64 }
+pub struct VxPath { pub opaque: u64 }
+// two trees that differ at most in the text of their own SHORT-NAME (the item name of the element itself)
+pub open spec fn same_but_item_name(a: Tree, b: Tree) -> bool {
+    a.name == b.name && a.ty == b.ty && a.attrs == b.attrs && a.items.len() == b.items.len()
+    && (forall|i: int| 1 <= i < a.items.len() ==> #[trigger] a.items[i] == b.items[i])
+    && (a.items.len() > 0 ==> (a.items[0] == b.items[0] || (a.items[0] matches Item::Sub(x) && b.items[0] matches Item::Sub(y)
+            && x.name == ElementName::ShortName && y.name == ElementName::ShortName && x.ty == y.ty && x.attrs == y.attrs)))
+}
+impl ElementRaw {
+    // the walk up the parent chain (`while let ElementOrModel::Element(weak_parent) = wrapped_parent`): graph code
+    #[verifier::external_body]
+    pub fn vx_check_not_below(&self, other: &Element) -> (r: Result<(), AutosarDataError>) { unimplemented!() }
+    #[verifier::external_body]
+    pub fn path_unchecked(&self) -> (r: Result<VxPath, AutosarDataError>) { unimplemented!() }
+}
+// `newelem.0.read().make_unique_item_name(model, &path)?`: the rename goes through the write lock of the SHORT-NAME child; the handle is read
+// again afterwards (r is the same handle, read after the call)
+#[verifier::external_body]
+pub fn vx_make_unique_item_name(e: Element, model: &AutosarModel, path: &VxPath) -> (r: Result<Element, AutosarDataError>)
+    ensures r matches Ok(h) ==> name_of(h) == name_of(e) && same_but_item_name(tree_of(e), tree_of(h))
+{ unimplemented!() }
+// ---- make_unique_item_name: texts are read through uninterpreted functions of their character sequences
+pub uninterp spec fn joined(parent: Seq<char>, name: Seq<char>) -> Seq<char>;        // format!("{parent_path}/{name}")
+pub uninterp spec fn suffixed(orig: Seq<char>, counter: int) -> Seq<char>;           // format!("{orig_name}_{counter}")
+pub uninterp spec fn path_found(model: AutosarModel, path: Seq<char>) -> bool;       // model.get_element_by_path(path).is_some()
+pub uninterp spec fn item_name_of(n: ElementRaw) -> Option<Seq<char>>;
+#[verifier::external_body]
+pub fn vx_format_path(parent_path: &str, name: &String) -> (r: String) ensures r@ == joined(parent_path@, name@) { unimplemented!() }
+#[verifier::external_body]
+pub fn vx_format_suffix(orig: &String, counter: i32) -> (r: String) ensures r@ == suffixed(orig@, counter as int) { unimplemented!() }
+#[verifier::external_body]
+pub fn vx_clone_string(s: &String) -> (r: String) ensures r@ == s@ { unimplemented!() }
+impl AutosarModel {
+    #[verifier::external_body]
+    pub fn vx_path_found(&self, path: &String) -> (r: bool) ensures r == path_found(*self, path@) { unimplemented!() }
+}
+impl ElementRaw {
+    #[verifier::external_body]
+    pub fn item_name(&self) -> (r: Option<String>) ensures (match r { Some(s) => item_name_of(*self) == Some(s@), None => item_name_of(*self) is None }) { unimplemented!() }
+}
+impl Element {
+    // `let mut sn = short_name_elem.0.write(); sn.content.clear(); sn.content.push(CharacterData::String(name.clone()))`: a write through the child's lock
+    #[verifier::external_body]
+    pub fn vx_overwrite_text(&self, name: &String) { unimplemented!() }
+}
+pub fn vx_first(c: &Vec<ElementContent>) -> (r: Option<&ElementContent>)
+    ensures (match r { Some(x) => c@.len() > 0 && *x == c@[0], None => c@.len() == 0 })
+{ if c.len() == 0 { None } else { Some(&c[0]) } }
+// registration of the copy's identifiable elements and references in the model's indexes (hash maps; elements_dfs): not modelled
+#[verifier::external_body]
+pub fn vx_register_copy(model: &AutosarModel, e: &Element, path: VxPath) { unimplemented!() }
 impl Element {
     #[verifier::external_body]
     pub fn element_name(&self) -> (r: ElementName) ensures r == name_of(*self) { unimplemented!() }
@@ -85,6 +138,9 @@ impl Element {
     // `copied.0.write().parent = ..`: the parent link of the copy (graph; not part of the tree)
     #[verifier::external_body]
     pub fn vx_set_parent(&self) { unimplemented!() }
+    #[verifier::external_body]
+    pub fn is_identifiable(&self) -> (r: bool) { unimplemented!() }
+    pub fn clone(&self) -> (r: Self) ensures r == *self { *self }
 }
 pub open spec fn items_of(c: Seq<ElementContent>) -> Seq<Item> {
     c.map(|i: int, x: ElementContent| match x { ElementContent::Element(h) => Item::Sub(Box::new(tree_of(h))), ElementContent::CharacterData(cd) => Item::Text(cd) })
@@ -284,6 +340,35 @@ R48 = [
     (r'Ok\(copy_wrapped\)', lambda m: 'Ok(vx_wrap(copy))', 'R48'),
 ]
 
+ANCESTRY = (r'let mut wrapped_parent = self\.parent\.clone\(\);\s*while let ElementOrModel::Element\(weak_parent\) = wrapped_parent \{\s*'
+            r'let parent = weak_parent\.upgrade\(\)\.ok_or\(AutosarDataError::ItemDeleted\)\?;\s*if parent == \*other \{\s*return Err\(AutosarDataError::ForbiddenCopyOfParent\);\s*\}\s*'
+            r'wrapped_parent = parent\.0\.read\(\)\.parent\.clone\(\);\s*\}')
+REGISTER = (r'let mut path_parts: Vec<Option<String>> = vec!\[Some\(path\)\];\s*for \(depth, sub_elem\) in newelem\.elements_dfs\(\) \{(?:.|\n)*?\n        \}\n')
+R51 = [
+    (ANCESTRY, lambda m: 'self.vx_check_not_below(other)?;', 'R51'),
+    (r'let newelem = other\.0\.read\(\)\.deep_copy\(version\)\?;', lambda m: 'let mut newelem = other.vx_node().deep_copy(version)?;', 'R51'),
+    (r'newelem\.set_parent\(ElementOrModel::Element\(self_weak\)\);', lambda m: 'newelem.vx_set_parent();', 'R51'),
+    (r'newelem\.0\.read\(\)\.make_unique_item_name\(model, &path\)\?;', lambda m: 'newelem = vx_make_unique_item_name(newelem, model, &path)?;', 'R51'),
+    (REGISTER, lambda m: 'vx_register_copy(model, &newelem, path);\n', 'R51'),
+]
+
+R52 = [
+    (r'let orig_name = self\.item_name\(\)\.ok_or\(AutosarDataError::VxOther\(0\)\)\?;', lambda m: 'let orig_name = match self.item_name() { Some(vx_s) => vx_s, None => { return Err(AutosarDataError::VxOther(0)); } };', 'R52'),
+    (r'let mut name = orig_name\.clone\(\);', lambda m: 'let mut name = vx_clone_string(&orig_name);', 'R52'),
+    (r'let mut counter = 1;', lambda m: 'let mut counter: i32 = 1;', 'R52'),
+    (r'format!\("\{parent_path\}/\{orig_name\}"\)', lambda m: 'vx_format_path(parent_path, &orig_name)', 'R52'),
+    (r'format!\("\{parent_path\}/\{name\}"\)', lambda m: 'vx_format_path(parent_path, &name)', 'R52'),
+    (r'format!\("\{orig_name\}_\{counter\}"\)', lambda m: 'vx_format_suffix(&orig_name, counter)', 'R52'),
+    (r'model\.get_element_by_path\(&path\)\.is_some\(\)', lambda m: 'model.vx_path_found(&path)', 'R52'),
+    (r'self\.content\.first\(\)', lambda m: 'vx_first(&self.content)', 'R52'),
+    (r'let mut sn_element = short_name_elem\.0\.write\(\);\s*sn_element\.content\.clear\(\);\s*sn_element\s*\.content\s*\.push\(ElementContent::CharacterData\(CharacterData::String\(name\.clone\(\)\)\)\);',
+     lambda m: 'short_name_elem.vx_overwrite_text(&name);', 'R52'),
+]
+
+# failure leaves the node as it was; success puts exactly one new child at `position`
+INNER_FRAME = ['r is Err ==> final(self).content@ == old(self).content@',
+               'r matches Ok(e) ==> final(self).content@ == old(self).content@.insert(position as int, ElementContent::Element(e))']
+
 LEAVES = ['find_attribute_spec', 'find_sub_element', 'chardata_spec', 'is_named_in_version', 'compatible']
 TV = 'target_version as u32'
 
@@ -352,6 +437,29 @@ proof {
     } else { assert(copy.content@ == old_cc); }
 }'''),
                         ])
+    VV = 'version as u32'
+    # the clauses that unit insertrange states on its leaf declaration of this function (same text)
+    inner = FnSpec('create_copied_sub_element_inner', F, impl=IMPL_R, ret='r', body_sub=R51,
+                   requires=['position <= old(self).content@.len()', 'node_of(*other).elemtype.typ < n_dt()', 'subtree_types_ok(node_of(*other))'],
+                   ensures=['final(self).elemname == old(self).elemname && final(self).elemtype == old(self).elemtype && final(self).attributes@ == old(self).attributes@',
+                            # failure leaves the node as it was; a source that cannot be copied into this version is refused
+                            INNER_FRAME[0],
+                            'copy_tree(node_of(*other), %s) is None ==> r is Err' % VV,
+                            # success: exactly one new child at `position`; it is the copy of the source (copy_tree), apart from its own item name
+                            INNER_FRAME[1],
+                            'r matches Ok(e) ==> name_of(e) == node_of(*other).elemname '
+                            '&& (copy_tree(node_of(*other), %s) matches Some(tr) && same_but_item_name(tr, tree_of(e)))' % VV],
+                   )
+    unique = FnSpec('make_unique_item_name', F, impl=IMPL_R, ret='r', body_sub=[R48[0]] + R52, attrs=['#[verifier::exec_allows_no_decreases_clause]'],
+                    ensures=['item_name_of(*self) is None ==> r is Err',
+                             # the name that is returned is not taken below the parent path, and it is the original name or that name with a numeric suffix
+                             'r matches Ok(name) ==> !path_found(*model, joined(parent_path@, name@)) && (item_name_of(*self) matches Some(orig) && '
+                             '(name@ == orig || exists|c: int| 1 <= c && name@ == suffixed(orig, c)))',
+                             # the original name is kept whenever it is free
+                             'r matches Ok(name) ==> (item_name_of(*self) matches Some(orig) && (!path_found(*model, joined(parent_path@, orig)) ==> name@ == orig))'],
+                    loops={0: dict(invariant=['counter >= 1', 'path@ == joined(parent_path@, name@)', 'counter == 1 ==> name@ == orig_name@', 'counter > 1 ==> name@ == suffixed(orig_name@, counter - 1)',
+                                              'counter > 1 ==> path_found(*model, joined(parent_path@, orig_name@))'])},
+                    proofs=[dict(before=r'^\s*counter \+= 1;', text='proof { assume(counter < i32::MAX); /* ASSUMED: fewer than 2^31 colliding names */ }')])
     spec += r'''
 // every element of the subtree has a type inside the tables (model consistency; needed for the lookups)
 pub open spec fn subtree_types_ok(n: ElementRaw) -> bool {
@@ -366,7 +474,7 @@ pub proof fn axiom_types_ok(n: ElementRaw, i: int)
 {}
 '''
     spec += open(os.path.join(os.path.dirname(os.path.abspath(__file__)), 'deepcopy_validates.rs')).read()
-    u = Unit(name='deepcopy', prop='C13', spec=spec, fns=[fn],
+    u = Unit(name='deepcopy', prop='C13', spec=spec, fns=[fn, inner, unique],
              wrap={IMPL_R: 'impl ElementRaw', lookups.IMPL_ET: 'impl ElementType', lookups.IMPL_AV: 'impl AutosarVersion'},
              dropped=['the element graph: ElementRaw is {elemname, elemtype, content: Vec, attributes: Vec, comment}; a child Element is an opaque handle with uninterpreted node_of / tree_of; `ElementRaw { .. }.wrap()` and the write guard are a local value wrapped at the end (vx_wrap); parent links are not part of the tree',
                       'specification lookups are leaves with the contracts proved in unit lookups; CharacterData::check_version_compatibility is a leaf with a clause proved in unit chardata (`valid` uninterpreted)',
